@@ -341,6 +341,10 @@ inline void call_shape(int shape, const Values &v, const char *fmt, std::vector<
         sink(fmt, a, v.i, a, b, b);
         return;
     }
+    // argument lists longer than 8 and 16 (scale phases; outside 0..NSHAPES-1, so the random phases never draw them)
+        SH(200, v.i, v.st, v.ul, v.cstr, v.ss, v.sv, v.b, v.ll, v.ws, v.s16, v.c32, v.us, v.sv8, v.s32, v.wsv, v.u, v.sc, v.sv16, v.l, v.c)
+        SH(201, v.i, v.l, v.u, v.s, v.ll, v.us, v.sc, v.ul, v.st)
+        SH(202, v.i, v.b, v.l, v.ss, v.u, v.s, v.ll, v.us, v.sc, v.ul, v.uc, v.ull, v.sv, v.c16, v.wc, v.i, v.st)
     default: return;
     }
 #undef SH
@@ -434,6 +438,567 @@ inline S describe_values(const std::vector<Arg> &args)
         }
     }
     return o;
+}
+
+} // namespace fmtref
+
+// ================================================================ scale phases of C10 / C11 / C17 =======================
+// Generators for format calls whose format string, arguments, field renderings and pad runs are several KiB to about a
+// MiB, with the places where something happens (an escape, a field, a stray brace, a multi-byte character, the end of
+// the string, a precision cut, the end of a pad run, U+0000) on or next to multiples of the block sizes a chunked
+// scanner / writer / sink is likely to use (rt/gen_scale.h).  The three harnesses feed what is built here to their own,
+// unchanged per-input monitors.  Everything is a pure function of the case index and the case's Rng.
+#include "gen_scale.h"
+#include <algorithm>
+
+namespace fmtref {
+
+// ---- big texts in the members of Values ---------------------------------------------------------------------------
+inline void set_texts_narrow(Values &v, const S &t)
+{
+    v.text = t; v.cstr = v.text.c_str(); v.text2 = t;
+    v.st = ST::string::from_validated(t.data(), t.size());
+    v.ss = t;
+    v.svback = "<" + t + ">tail"; v.sv = std::string_view(v.svback).substr(1, t.size());
+}
+inline void set_texts_u8(Values &v, const S &t)
+{
+    v.u8text.assign(reinterpret_cast<const char8_t *>(t.data()), t.size()); v.u8 = v.u8text.c_str(); v.s8 = v.u8text;
+    v.u8back = u8"<" + v.u8text + u8">tail"; v.sv8 = std::u8string_view(v.u8back).substr(1, v.u8text.size());
+}
+inline void set_texts_wide(Values &v, const std::u32string &w32)
+{
+    v.wtext.assign(w32.begin(), w32.end()); v.wstr = v.wtext.c_str(); v.ws = v.wtext;
+    v.wback = L"<" + v.wtext + L">tail"; v.wsv = std::wstring_view(v.wback).substr(1, v.wtext.size());
+}
+inline void set_texts_u16(Values &v, const std::u32string &w32)
+{
+    v.u16text.clear();
+    for (char32_t c : w32) ref::enc_utf16(v.u16text, c);
+    v.u16 = v.u16text.c_str(); v.s16 = v.u16text;
+    v.u16back = u"<" + v.u16text + u">tail"; v.sv16 = std::u16string_view(v.u16back).substr(1, v.u16text.size());
+}
+inline void set_texts_u32(Values &v, const std::u32string &w32)
+{
+    v.u32text = w32; v.u32 = v.u32text.c_str(); v.s32 = v.u32text;
+    v.u32back = U"<" + v.u32text + U">tail"; v.sv32 = std::u32string_view(v.u32back).substr(1, v.u32text.size());
+}
+inline std::u32string utf32_of(const S &t)          // t is well-formed UTF-8
+{
+    std::u32string w;
+    for (long cp : ref::decode_utf8(t)) w += static_cast<char32_t>(cp);
+    return w;
+}
+// every text member (C strings, sized strings, views; UTF-8, UTF-16, UTF-32, wchar_t) holds the well-formed UTF-8 text t.
+// t may contain U+0000: the sized members keep it, the C-string members end there (which describe() models).
+inline void set_all_texts(Values &v, const S &t)
+{
+    const std::u32string w32 = utf32_of(t);
+    set_texts_narrow(v, t); set_texts_u8(v, t); set_texts_wide(v, w32); set_texts_u16(v, w32); set_texts_u32(v, w32);
+}
+// only the members a single-argument text shape passes (a MiB-sized text is not copied into all twenty of them)
+inline void set_texts_for_shape(Values &v, int shape, const S &t)
+{
+    switch (shape) {
+    case 2: case 3: case 31: case 32: set_texts_narrow(v, t); break;
+    case 36: case 40: case 44: set_texts_u8(v, t); break;
+    case 33: case 37: case 41: set_texts_wide(v, utf32_of(t)); break;
+    case 34: case 38: case 42: set_texts_u16(v, utf32_of(t)); break;
+    case 35: case 39: case 43: set_texts_u32(v, utf32_of(t)); break;
+    default: set_all_texts(v, t); break;
+    }
+}
+inline bool sized_text_arg(const Arg &a) { return a.kind == Arg::Text && !strchr(a.type, '*'); }
+
+// ---- text of an exact length with pieces at exact offsets ----------------------------------------------------------
+enum Bg { BG_ASCII_CONST, BG_ASCII_RANDOM, BG_TWO, BG_THREE, BG_FOUR, BG_MIXED, BG_HIGH /* not UTF-8 */ };
+struct Plant { size_t at; S bytes; };
+
+inline S mb_char(vrt::Rng &r, unsigned width)
+{
+    static const unsigned long two[] = {0xE9, 0x7FF, 0x80, 0x3A9}, three[] = {0x20AC, 0x800, 0xFFFD, 0xD7FF, 0xE000, 0x4E2D}, four[] = {0x1F600, 0x10000, 0x10FFFF, 0x2070E};
+    S s;
+    ref::enc_utf8(s, width == 2 ? r.pick(two) : width == 3 ? r.pick(three) : width == 4 ? r.pick(four) : 'm');
+    return s;
+}
+inline int pick_bg(vrt::Rng &r, bool allow_high = false)
+{
+    static const int w[] = {BG_ASCII_CONST, BG_ASCII_CONST, BG_ASCII_CONST, BG_ASCII_RANDOM, BG_ASCII_RANDOM, BG_TWO, BG_THREE, BG_FOUR, BG_MIXED, BG_MIXED};
+    if (allow_high && r.chance(1, 14)) return BG_HIGH;
+    return r.pick(w);
+}
+// exactly `len` bytes of background (never a brace; well-formed UTF-8 unless BG_HIGH) in which every plant that fits
+// (in order, not overlapping) starts exactly at its offset - ASCII filler where a background character does not fit in
+// front of it.  `plants` is reduced to the ones that were placed.
+inline S compose(vrt::Rng &r, size_t len, int bg, std::vector<Plant> &plants)
+{
+    std::stable_sort(plants.begin(), plants.end(), [](const Plant &a, const Plant &b) { return a.at < b.at; });
+    std::vector<Plant> kept;
+    size_t busy = 0;
+    for (const Plant &p : plants)
+        if (p.at >= busy && p.at + p.bytes.size() <= len) { kept.push_back(p); busy = p.at + p.bytes.size(); }
+    plants.swap(kept);
+    S s;
+    s.reserve(len + 8);
+    const S c2 = mb_char(r, 2), c3 = mb_char(r, 3), c4 = mb_char(r, 4);
+    static const char fillers[] = "ax _0.%&";
+    const char a = fillers[r.below(sizeof(fillers) - 1)];
+    const char high = r.chance(1, 2) ? '\xFF' : '\x80';
+    auto fill = [&](size_t upto) {
+        while (s.size() < upto) {
+            const size_t left = upto - s.size();
+            switch (bg) {
+            case BG_ASCII_RANDOM: { static const char al[] = "abcxyzQ 0123456789_.%&\\-+#<>"; s += al[r.below(sizeof(al) - 1)]; break; }
+            case BG_TWO: if (left >= 2) s += c2; else s += a; break;
+            case BG_THREE: if (left >= 3) s += c3; else s += a; break;
+            case BG_FOUR: if (left >= 4) s += c4; else s += a; break;
+            case BG_MIXED: {
+                const unsigned w = 1 + static_cast<unsigned>(r.below(4));
+                if (w == 1 || left < w) s += static_cast<char>('a' + r.below(26));
+                else s += w == 2 ? c2 : w == 3 ? c3 : c4;
+                break;
+            }
+            case BG_HIGH: s.append(left, high); break;
+            default: s.append(left, a); break;
+            }
+        }
+    };
+    for (const Plant &p : plants) { fill(p.at); s += p.bytes; }
+    fill(len);
+    return s;
+}
+inline S compose(vrt::Rng &r, size_t len, int bg) { std::vector<Plant> none; return compose(r, len, bg, none); }
+
+// ---- a format string under construction -----------------------------------------------------------------------------
+struct ScaleFmt {
+    std::vector<S> lits{S()};          // lits.size() == fields.size() + 1
+    std::vector<Field> fields;
+    std::vector<size_t> starts, ends;  // offsets into text(): where each grid-planted token begins / just behind it
+    size_t len = 0;                    // length of text() so far
+    void lit(const S &t) { lits.back() += t; len += t.size(); }
+    void field(const Field &f) { len += field_text(f).size(); fields.push_back(f); lits.push_back(S()); }
+    S text() const
+    {
+        S o = lits[0];
+        for (size_t i = 0; i < fields.size(); ++i) { o += field_text(fields[i]); o += lits[i + 1]; }
+        return o;
+    }
+};
+inline Field plain_field(int argref)
+{
+    Field f;
+    f.argref = argref;
+    f.order = {0, 1, 2, 3, 4, 5, 6, 7};
+    return f;
+}
+// a short field on argument 1..nargs
+inline Field small_field(vrt::Rng &r, size_t nargs)
+{
+    Field f = random_field(r, false);
+    if (f.width > 40) f.width = static_cast<int>(1 + r.below(40));
+    f.argref = static_cast<int>(1 + r.below(nargs ? nargs : 1));
+    return f;
+}
+
+// ---- (1) long literal runs: a token that begins at  q * B - k  from the start of the run / of the string ------------------
+enum Tok { TOK_OPEN_ESC, TOK_CLOSE_ESC, TOK_FIELD, TOK_STRAY_CLOSE, TOK_MB2, TOK_MB3, TOK_MB4, TOK_END, N_TOK };
+inline const char *tok_name(int t)
+{
+    static const char *const n[] = {"escape{{", "escape}}", "field", "stray}", "2-byte-character", "3-byte-character", "4-byte-character", "end-of-string"};
+    return t >= 0 && t < N_TOK ? n[t] : "other";
+}
+struct LiteralPlan {
+    size_t B, q0, k0;
+    int kind;
+    uint64_t rot;
+};
+// the case index walks block size x token kind first (so that every tier visits all of them), then k (bytes of the token
+// in front of the multiple) and the multiple q
+inline LiteralPlan literal_plan(uint64_t i, int nkinds)
+{
+    const std::vector<size_t> &BL = scale::blocks();
+    LiteralPlan p;
+    p.B = BL[i % BL.size()];
+    p.kind = static_cast<int>((i / BL.size()) % static_cast<uint64_t>(nkinds));
+    p.rot = i / (BL.size() * static_cast<uint64_t>(nkinds));
+    p.k0 = p.rot % 4;
+    p.q0 = 1 + (p.rot / 4) % 8;
+    return p;
+}
+// run-resetting separator: a field or an escaped brace
+inline void emit_separator(vrt::Rng &r, size_t nargs, ScaleFmt &out)
+{
+    switch (nargs ? r.below(3) : 1 + r.below(2)) {
+    case 0: out.field(small_field(r, nargs)); break;
+    case 1: out.lit("{{"); break;
+    default: out.lit("}}"); break;
+    }
+}
+inline void emit_token(vrt::Rng &r, int kind, size_t nargs, ScaleFmt &out)
+{
+    switch (kind) {
+    case TOK_OPEN_ESC: out.lit("{{"); break;
+    case TOK_CLOSE_ESC: out.lit("}}"); break;
+    case TOK_FIELD: if (nargs) out.field(small_field(r, nargs)); else out.lit("{{"); break;
+    case TOK_STRAY_CLOSE: out.lit("}"); break;
+    case TOK_MB2: out.lit(mb_char(r, 2)); break;
+    case TOK_MB3: out.lit(mb_char(r, 3)); break;
+    case TOK_MB4: out.lit(mb_char(r, 4)); break;
+    default: break;
+    }
+}
+inline size_t tok_len(int kind) { return kind == TOK_STRAY_CLOSE ? 1 : kind == TOK_MB3 ? 3 : kind == TOK_MB4 ? 4 : kind == TOK_END ? 0 : 2; }
+
+// A chain of up to four segments "literal run + token"; segment j's token begins q_j * B - k_j bytes behind the point
+// distances are measured from: the start of the run (= the end of the previous token / separator) or, for the first
+// segment, optionally the start of the string with a run that starts later.  q_j = q0, q0+2, ... (mod 8), k_j = k0, k0+1, ...
+// (mod 4), as many as fit under `cap`.  Returns false when not even the first segment fits.  `kind` in 0..N_TOK-1.
+inline bool scale_literal_chain(vrt::Rng &r, const LiteralPlan &p, int kind, size_t nargs, size_t cap, bool allow_high, ScaleFmt &out)
+{
+    if (p.q0 * p.B + 64 > cap) return false;
+    const int bg = pick_bg(r, allow_high);
+    // prefix: 0 none; 1 run-resetting prefix, measured from the start of the run; 2 short plain prefix (no reset), measured from
+    // the start of the string; 3 run-resetting prefix, measured from the start of the string
+    static const unsigned modes[] = {0, 0, 1, 1, 2, 3};
+    const unsigned mode = r.pick(modes);
+    if (mode == 1 || mode == 3) {
+        if (r.chance(1, 2)) out.lit(compose(r, 1 + r.below(6), BG_ASCII_RANDOM));
+        emit_separator(r, nargs, out);
+    } else if (mode == 2) {
+        out.lit(r.chance(1, 2) ? compose(r, 1 + r.below(6), BG_ASCII_RANDOM) : mb_char(r, 2 + static_cast<unsigned>(r.below(3))));
+    }
+    size_t anchor = (mode == 2 || mode == 3) ? 0 : out.len;
+    vrt::count(anchor == 0 && out.len != 0 ? "scale.literal.measured_from_start_of_string_behind_a_prefix" : out.len == 0 ? "scale.literal.measured_from_start_of_string" : "scale.literal.measured_from_start_of_run");
+    // how many segments fit
+    size_t nseg = 0, total = out.len;
+    for (size_t j = 0; j < 4; ++j) {
+        const size_t q = 1 + (p.q0 - 1 + 2 * j) % 8;
+        if (total + q * p.B + 64 > cap) break;
+        total += q * p.B + 16;
+        ++nseg;
+    }
+    if (nseg == 0) nseg = 1;
+    for (size_t j = 0; j < nseg; ++j) {
+        const size_t q = 1 + (p.q0 - 1 + 2 * j) % 8, k = (p.k0 + j) % 4;
+        size_t target = anchor + q * p.B - std::min(k, q * p.B);
+        if (k == 0 && r.chance(1, 3)) { target += 1 + r.below(2); vrt::count("scale.literal.token_starts_just_behind_a_multiple"); }      // ... or one / two bytes behind the multiple
+        while (target < out.len) target += p.B;
+        out.lit(compose(r, target - out.len, bg));
+        out.starts.push_back(out.len);
+        const bool last = j + 1 == nseg;
+        int t = kind;
+        if (kind == TOK_END && !last) t = static_cast<int>(r.below(3));       // {{, }} or a field stands at the grid offset
+        emit_token(r, t, nargs, out);
+        out.ends.push_back(out.len);
+        if (k > 0 && k < tok_len(t)) vrt::count("scale.literal.token_straddles_a_multiple");
+        else if (k == 0 && (out.starts.back() - (out.starts.back() >= anchor ? anchor : 0)) % p.B == 0) vrt::count("scale.literal.token_starts_on_a_multiple");
+        else if (k == 0) vrt::count("scale.literal.token_starts_behind_a_multiple");
+        else vrt::count("scale.literal.token_ends_on_or_before_a_multiple");
+        vrt::count(S("scale.literal.token.") + tok_name(last ? kind : t));
+        if (!last && t == TOK_STRAY_CLOSE) { if (r.chance(1, 2)) out.lit("{{"); else out.field(small_field(r, nargs)); }     // (not "}}": "}" + "}}" reads as "}}" + "}")
+        else if (!last && (t == TOK_MB2 || t == TOK_MB3 || t == TOK_MB4)) emit_separator(r, nargs, out);
+        anchor = out.len;
+    }
+    if (kind != TOK_END) {
+        switch (r.below(4)) {
+        case 1: out.lit(compose(r, 1 + r.below(20), r.chance(1, 2) ? BG_ASCII_RANDOM : BG_MIXED)); break;
+        case 2: if (out.len + 6000 < cap) out.lit(compose(r, 1000 + r.below(4000), bg)); break;
+        default: break;
+        }
+    }
+    vrt::count("scale.literal.cases");
+    vrt::count("scale.literal.segments", nseg);
+    if (out.len >= 65536) vrt::count("scale.literal.format_string>=64KiB");
+    if (out.len >= 262144) vrt::count("scale.literal.format_string>=256KiB");
+    return true;
+}
+
+// ---- (2) hundreds to tens of thousands of fields in one format string ------------------------------------------------
+// Mostly {&N} references (so that any number of fields is well-formed), with sequential {} fields at and behind the
+// 255th / 256th / 65536th field: they must still select the next unused argument.  With out_of_range_tail the string
+// ends in sequential fields one more than there are arguments (std::out_of_range expected).
+inline void scale_many_fields(uint64_t i, vrt::Rng &r, size_t nargs, bool out_of_range_tail, ScaleFmt &out)
+{
+    static const size_t counts[] = {255, 256, 257, 300, 512, 1000, 1024, 4096, 65535, 65536, 65537, 70000};
+    const size_t n = counts[i % 12];
+    const unsigned style = static_cast<unsigned>((i / 12) % 4);
+    size_t seq = 0;
+    for (size_t idx = 0; idx < n; ++idx) {
+        Field f = (style == 3 || (style == 2 && r.chance(1, 8))) ? small_field(r, nargs) : plain_field(0);
+        if (f.width > 12) f.width = static_cast<int>(1 + r.below(12));
+        f.argref = static_cast<int>(1 + (style == 0 ? idx % nargs : r.below(nargs)));
+        const bool probe = idx == 254 || idx == 255 || idx == 256 || idx == 65534 || idx == 65535 || idx == 65536 || idx + 1 == n || r.chance(1, 300);
+        if (style != 0 && probe && seq < nargs) { f.argref = 0; ++seq; if (idx >= 255) vrt::count("scale.fields.sequential_field_behind_255_others"); }
+        out.field(f);
+        if (style != 0 && r.chance(1, 3)) out.lit(random_literal(r));
+    }
+    if (out_of_range_tail) {
+        for (; seq <= nargs; ++seq) out.field(plain_field(0));
+        vrt::count("scale.fields.sequential_fields_one_more_than_arguments");
+    }
+    vrt::count("scale.fields.cases");
+    if (n > 255) vrt::count("scale.fields.more_than_255_fields");
+    if (n > 65535) vrt::count("scale.fields.more_than_65535_fields");
+    if (nargs > 8) vrt::count("scale.fields.more_than_8_arguments");
+    if (nargs > 16) vrt::count("scale.fields.more_than_16_arguments");
+}
+
+// ---- (3) big arguments, big renderings, long pad runs -----------------------------------------------------------------
+static const size_t SCALE_MAX_WIDTH = 200000;
+
+struct ArgCase {
+    int shape = 3;
+    ScaleFmt f;
+    S what;
+};
+inline int pick_text_shape(vrt::Rng &r, bool sized_only, size_t text_len)
+{
+    static const int sized[] = {3, 31, 32, 37, 38, 39, 40, 41, 42, 43, 44}, pointer[] = {2, 33, 34, 35, 36}, multi[] = {5, 7, 4, 11, 12, 14, 13, 15, 46, 50, 51, 200, 201, 202};
+    if (text_len <= 131072 && r.chance(1, 4)) return r.pick(multi);
+    if (!sized_only && r.chance(1, 4)) return r.pick(pointer);
+    return r.pick(sized);
+}
+// index (0-based) of a text argument of the shape, a sized one when wanted and there is one
+inline size_t pick_text_arg(vrt::Rng &r, const std::vector<Arg> &args, bool want_sized)
+{
+    std::vector<size_t> sized, any;
+    for (size_t k = 0; k < args.size(); ++k)
+        if (args[k].kind == Arg::Text) { any.push_back(k); if (sized_text_arg(args[k])) sized.push_back(k); }
+    if (want_sized && !sized.empty()) return r.pick(sized);
+    return any.empty() ? 0 : r.pick(any);
+}
+inline void dress_text_field(vrt::Rng &r, Field &f)
+{
+    static const char aligns[] = {0, 0, '<', '>'};
+    f.align = r.pick(aligns);
+    switch (r.below(4)) {
+    case 0: { static const char pads[] = {'*', '_', '.', '#', 'x', '-', ' ', '0', '~'}; f.padkind = 1; f.padc = r.pick(pads); break; }
+    case 1: f.padkind = 2; break;
+    default: break;
+    }
+}
+
+// text arguments of `max_text` bytes at most, precisions of `max_precision` at most, widths of SCALE_MAX_WIDTH at most
+inline void scale_arg_case(uint64_t i, vrt::Rng &r, Values &v, ArgCase &c, size_t max_text, size_t max_precision)
+{
+    static const size_t BA[] = {1000, 1024, 2048, 4096, 8192, 16384, 32768, 49152, 65535, 65536, 131072, 262144, 524288, 1048576};
+    const size_t nb = sizeof(BA) / sizeof(BA[0]);
+    size_t B = BA[i % nb];
+    while (B > max_text) B /= 2;
+    const unsigned var = static_cast<unsigned>((i / nb) % 6);
+    const uint64_t rot = i / (nb * 6);
+    const size_t qmax = std::max<size_t>(1, std::min<size_t>(8, max_text / B));
+    const size_t q = 1 + rot % qmax;
+    random_values(r, v);
+    // (width class, bytes in front of the multiple): every way a character can touch or straddle it, and "nothing"
+    // (the ones that leave exactly one byte behind the multiple first: every tier visits those at every block size)
+    static const unsigned combos[][2] = {{4, 3}, {3, 2}, {2, 1}, {4, 1}, {4, 2}, {3, 1}, {4, 4}, {3, 3}, {2, 2}, {4, 0}, {3, 0}, {2, 0}, {0, 0}};
+    const size_t ncombo = sizeof(combos) / sizeof(combos[0]);
+    S text;
+    std::vector<Plant> plants;
+    Field f = plain_field(0);
+    bool nul_planted = false;
+    auto finish_text_case = [&](bool want_sized) {
+        c.shape = pick_text_shape(r, want_sized, text.size());
+        set_texts_for_shape(v, c.shape, text);
+        std::vector<Arg> args;
+        call_shape(c.shape, v, "", &args, [](const char *, auto &&...) {});
+        const size_t idx = pick_text_arg(r, args, want_sized);
+        f.argref = (idx == 0 && r.chance(1, 2)) ? 0 : static_cast<int>(idx + 1);
+        if (text.size() >= 65536) vrt::count("scale.args.text_argument>=64KiB");
+        if (text.size() >= 1000000) vrt::count("scale.args.text_argument>=1MB");
+        if (args.size() > 8) vrt::count("scale.args.more_than_8_arguments");
+        if (idx < args.size() && !sized_text_arg(args[idx])) vrt::count("scale.args.text_through_a_C_string_argument");
+        else if (idx < args.size() && strstr(args[idx].type, "16")) vrt::count("scale.args.text_through_a_UTF-16_argument");
+        else if (idx < args.size() && (strstr(args[idx].type, "32") || strstr(args[idx].type, "wstring") || strstr(args[idx].type, "wchar"))) vrt::count("scale.args.text_through_a_UTF-32/wchar_t_argument");
+    };
+    auto plant_combo = [&](size_t multiple, size_t which) {
+        const unsigned w = combos[which][0], k = combos[which][1];
+        if (w == 0 || multiple < k) return false;
+        plants.push_back(Plant{multiple - k, mb_char(r, w)});
+        if (k > 0 && k < w) vrt::count("scale.args.character_straddles_a_multiple");
+        return true;
+    };
+    switch (var) {
+    case 0: {   // the whole text goes through: a character touching / straddling q * B, more of them at later multiples
+        const size_t which = static_cast<size_t>(rot % ncombo);
+        const size_t M = q * B;
+        const size_t margin = r.chance(1, 3) ? r.below(40) : r.chance(1, 2) ? 1000 + r.below(70000) : B + static_cast<size_t>(scale::nudge(r) + 9) - 9;
+        const size_t L = std::min(M + 4 + margin, max_text + 64);
+        const bool primary = plant_combo(M, which);
+        if (!primary && r.chance(1, 2)) { plants.push_back(Plant{M - r.below(2), S(1, '\0')}); nul_planted = true; }
+        if (r.chance(1, 2))
+            for (size_t m = q + 1; m * B + 4 < L; ++m)
+                if (r.chance(2, 3)) plant_combo(m * B, (which + m) % ncombo);
+        text = compose(r, L, pick_bg(r), plants);
+        if (r.chance(1, 5)) f.width = static_cast<int>(1 + r.below(100));
+        if (r.chance(1, 5) && L + 1 <= max_precision) f.precision = static_cast<int>(L + r.below(2));
+        finish_text_case(nul_planted);
+        c.f.lit(r.chance(1, 2) ? "" : "<"); c.f.field(f); c.f.lit(r.chance(1, 2) ? "" : ">");
+        vrt::count("scale.args.whole_text");
+        c.what = vrt::sfmt("text of %zu bytes, %zu planted pieces, the first at %zu (block %zu x %zu)", L, plants.size(), plants.empty() ? 0 : plants[0].at, B, q);
+        break;
+    }
+    case 1: {   // precision cut at q * B + d
+        size_t C = q * B + static_cast<size_t>(scale::nudge(r) + 9) - 9;
+        if (C > max_precision) C = (1 + rot % 3) * 65536 + static_cast<size_t>(scale::nudge(r) + 9) - 9;
+        if (C > max_precision) C = max_precision;
+        const size_t rest = r.chance(1, 3) ? 1 + r.below(64) : r.chance(1, 2) ? 1000 + r.below(70000) : std::min(C, max_text > C ? max_text - C : 1);
+        const size_t L = C + std::max<size_t>(rest, 1);
+        unsigned feature = static_cast<unsigned>(r.below(8));
+        const bool sized = r.chance(4, 5);
+        if (!sized && feature >= 1 && feature <= 4) feature += 4;
+        if (feature > 7) feature = 7;
+        switch (feature) {
+        case 1: plants.push_back(Plant{C - 1, S(1, '\0')}); vrt::count("scale.args.NUL_is_the_last_kept_byte"); break;
+        case 2: plants.push_back(Plant{C, S(1, '\0')}); vrt::count("scale.args.NUL_is_the_first_cut_byte"); break;
+        case 3: plants.push_back(Plant{r.chance(1, 2) ? C / 2 : scale::offset(r, C - 1), S(1, '\0')}); if (r.chance(1, 2)) plants.push_back(Plant{C + r.below(L - C), S(1, '\0')}); vrt::count("scale.args.NUL_inside_the_kept_part"); break;
+        case 4: plants.push_back(Plant{L - C > 1 ? C + 1 + r.below(L - C - 1) : C, S(1, '\0')}); vrt::count("scale.args.NUL_inside_the_cut_part"); break;
+        case 5: { const S ch = mb_char(r, 2 + static_cast<unsigned>(r.below(3))); if (C >= ch.size()) plants.push_back(Plant{C - ch.size(), ch}); vrt::count("scale.args.character_ends_at_the_cut"); break; }
+        case 6: plants.push_back(Plant{C, mb_char(r, 2 + static_cast<unsigned>(r.below(3)))}); vrt::count("scale.args.character_starts_at_the_cut"); break;
+        case 7: { const unsigned w = 2 + static_cast<unsigned>(r.below(3)); const size_t k = 1 + r.below(w - 1); if (C >= k) plants.push_back(Plant{C - k, mb_char(r, w)}); vrt::count("scale.args.character_straddles_the_cut"); break; }
+        default: break;
+        }
+        nul_planted = feature >= 1 && feature <= 4;
+        text = compose(r, L, pick_bg(r), plants);
+        f.precision = static_cast<int>(C);
+        if (r.chance(1, 2)) {
+            dress_text_field(r, f);
+            f.width = static_cast<int>(r.chance(1, 2) ? C + 1 + r.below(300) : 1 + r.below(C));
+            if (static_cast<size_t>(f.width) > SCALE_MAX_WIDTH) f.width = static_cast<int>(SCALE_MAX_WIDTH);
+        }
+        finish_text_case(sized);
+        c.f.lit("["); c.f.field(f); c.f.lit("]");
+        vrt::count("scale.args.precision_cut");
+        if (C >= 4096) vrt::count("scale.args.precision>=4096");
+        c.what = vrt::sfmt("text of %zu bytes cut by precision %zu (feature %u), width %d", L, C, feature, f.width);
+        break;
+    }
+    case 2: case 3: {   // pad runs of q * Bp + d bytes behind / in front of a text (2) or a number / bool (3)
+        size_t Bp = B > 131072 ? 65536 : B, qp = q;
+        while (qp > 1 && qp * Bp + 16 > SCALE_MAX_WIDTH - 64) --qp;
+        size_t pad = qp * Bp + static_cast<size_t>(scale::nudge(r) + 9) - 9;
+        if (pad + 64 > SCALE_MAX_WIDTH) pad = SCALE_MAX_WIDTH - 64 - r.below(4);
+        dress_text_field(r, f);
+        if (var == 2) {
+            size_t S0 = r.chance(1, 3) ? r.below(100) : r.chance(1, 2) ? scale::length(r, 60000, 1000) : r.below(5000);
+            if (S0 + pad > SCALE_MAX_WIDTH) S0 = r.below(50);
+            text = compose(r, S0, pick_bg(r));
+            f.width = static_cast<int>(S0 + pad);
+            finish_text_case(false);
+            vrt::count("scale.args.text_with_pad_run");
+            c.what = vrt::sfmt("text of %zu bytes padded to width %d (pad run %zu = %zu x %zu + d)", S0, f.width, pad, qp, Bp);
+        } else {
+            static const int shapes[] = {1, 16, 17, 18, 19, 20, 21, 22, 23, 24, 30, 6, 10, 47, 201, 202, 25, 27};
+            c.shape = r.pick(shapes);
+            std::vector<Arg> args;
+            call_shape(c.shape, v, "", &args, [](const char *, auto &&...) {});
+            const size_t idx = r.below(args.size());
+            f.argref = (idx == 0 && r.chance(1, 2)) ? 0 : static_cast<int>(idx + 1);
+            static const char classes[] = {0, 0, 'd', 'x', 'X', 'o', 'b'};
+            f.cls = r.pick(classes);
+            f.alt = r.chance(1, 3);
+            f.plus = r.chance(1, 3);
+            S nat;
+            Field bare = f;
+            bare.padkind = 0; bare.width = 0;
+            render_field(bare, args[idx], nat);
+            f.width = static_cast<int>(nat.size() + pad);
+            if (static_cast<size_t>(f.width) > SCALE_MAX_WIDTH) f.width = static_cast<int>(SCALE_MAX_WIDTH);
+            vrt::count("scale.args.number_with_pad_run");
+            c.what = vrt::sfmt("%s padded to width %d (pad run %zu = %zu x %zu + d)", args[idx].type, f.width, pad, qp, Bp);
+        }
+        for (size_t k = f.order.size(); k > 1; --k) std::swap(f.order[k - 1], f.order[r.below(k)]);
+        c.f.lit(r.chance(1, 2) ? "" : "|"); c.f.field(f); c.f.lit(r.chance(1, 2) ? "" : "|");
+        if (pad >= 4096) vrt::count("scale.args.pad_run>=4096");
+        if (pad >= 65536) vrt::count("scale.args.pad_run>=65536");
+        break;
+    }
+    case 4: {   // lengths exactly on / next to q * B, width and precision next to the length
+        const size_t L = std::min<size_t>(q * B + static_cast<size_t>(scale::nudge(r) + 9) - 9, max_text + 64);
+        if (r.chance(1, 4)) { plants.push_back(Plant{r.chance(1, 2) ? L - 1 : 0, S(1, '\0')}); nul_planted = true; }
+        text = compose(r, L, pick_bg(r), plants);
+        if (r.chance(2, 3) && L + 1 <= SCALE_MAX_WIDTH) { dress_text_field(r, f); f.width = static_cast<int>(L + r.below(3)) - 1; if (f.width < 0) f.width = 0; }
+        if (r.chance(1, 2) && L + 1 <= max_precision) { f.precision = static_cast<int>(L + r.below(3)) - 1; if (f.precision < 0) f.precision = 0; }
+        finish_text_case(nul_planted);
+        c.f.lit(r.chance(1, 2) ? "" : "("); c.f.field(f); c.f.lit(r.chance(1, 2) ? "" : ")");
+        vrt::count("scale.args.text_of_block_length");
+        c.what = vrt::sfmt("text of %zu bytes (block %zu x %zu + d), width %d precision %d", L, B, q, f.width, f.precision);
+        break;
+    }
+    default: {  // a character that touches / straddles q * B counted in bytes of OUTPUT: literal + text + literal
+        const size_t which = static_cast<size_t>(rot % (ncombo - 1));
+        const unsigned w = combos[which][0], k = combos[which][1];
+        const size_t M = q * B;
+        const size_t lead = r.chance(1, 2) ? r.below(40) : std::min<size_t>(M / 2, 1000 + r.below(30000));
+        const bool in_text = r.chance(1, 2);
+        const S ch = mb_char(r, w);
+        const int bg = pick_bg(r);
+        c.f.lit(compose(r, lead, r.chance(1, 2) ? BG_ASCII_RANDOM : bg));
+        if (in_text) {          // the character lies inside the argument
+            const size_t at = M - k - lead;
+            plants.push_back(Plant{at, ch});
+            text = compose(r, at + ch.size() + (r.chance(1, 2) ? r.below(40) : 1000 + r.below(70000)), bg, plants);
+            finish_text_case(false);
+            c.f.field(f);
+            c.f.lit(r.chance(1, 2) ? "" : compose(r, r.below(3000), bg));
+        } else {                // ... or in the literal behind it
+            const size_t tlen = std::min<size_t>(M - k - lead, r.chance(1, 2) ? 1 + r.below(5000) : (M - k - lead) / 2);
+            text = compose(r, tlen, bg);
+            finish_text_case(false);
+            c.f.field(f);
+            c.f.lit(compose(r, M - k - lead - tlen, bg));
+            c.f.lit(ch);
+            c.f.lit(compose(r, r.chance(1, 2) ? r.below(40) : 1000 + r.below(20000), bg));
+        }
+        // C-string arguments end at ... nothing here contains U+0000, so every argument kind carries the whole text
+        if (k > 0 && k < w) vrt::count("scale.args.character_straddles_a_multiple_of_the_output");
+        vrt::count("scale.args.output_offset");
+        c.what = vrt::sfmt("literal of %zu bytes + text of %zu bytes + literal: a %u-byte character begins at output offset %zu x %zu - %u (%s)", lead, text.size(), w, B, q, k, in_text ? "inside the argument" : "inside the literal");
+        break;
+    }
+    }
+    vrt::count("scale.args.cases");
+}
+
+// ---- (4) U+0000 and the precision: sized string arguments (not C strings) are cut to the precision whatever the bytes are
+// A short text with one to three U+0000 inside the kept part, at the cut (last kept / first cut byte) or in the cut part.
+inline void nul_precision_case(vrt::Rng &r, Values &v, int &shape, ScaleFmt &out)
+{
+    random_values(r, v);
+    const size_t L = 2 + r.below(r.chance(1, 6) ? 300 : 40);
+    const size_t C = r.below(L);                       // precision < size: it really cuts
+    std::vector<Plant> plants;
+    const unsigned where = static_cast<unsigned>(r.below(5));
+    switch (where) {
+    case 0: if (C >= 1) plants.push_back(Plant{r.below(C), S(1, '\0')}); break;             // kept part
+    case 1: if (C >= 1) plants.push_back(Plant{C - 1, S(1, '\0')}); break;                  // last kept byte
+    case 2: plants.push_back(Plant{C, S(1, '\0')}); break;                                  // first cut byte
+    case 3: plants.push_back(Plant{C + r.below(L - C), S(1, '\0')}); break;                 // cut part
+    default: plants.push_back(Plant{0, S(1, '\0')}); if (C >= 2) plants.push_back(Plant{C - 1, S(1, '\0')}); plants.push_back(Plant{L - 1, S(1, '\0')}); break;
+    }
+    const S text = compose(r, L, r.chance(2, 3) ? BG_ASCII_RANDOM : pick_bg(r), plants);
+    static const int shapes[] = {3, 31, 32, 37, 38, 39, 40, 41, 42, 43, 44, 5, 7, 4, 11, 12, 14, 13, 15, 46, 50, 51, 200, 201, 202};
+    shape = r.pick(shapes);
+    set_all_texts(v, text);
+    std::vector<Arg> args;
+    call_shape(shape, v, "", &args, [](const char *, auto &&...) {});
+    const size_t idx = pick_text_arg(r, args, true);
+    Field f = plain_field((idx == 0 && r.chance(1, 2)) ? 0 : static_cast<int>(idx + 1));
+    f.precision = static_cast<int>(C);
+    if (r.chance(1, 2)) { dress_text_field(r, f); f.width = static_cast<int>(r.chance(1, 2) ? C + 1 + r.below(12) : 1 + r.below(L + 4)); }
+    for (size_t k = f.order.size(); k > 1; --k) std::swap(f.order[k - 1], f.order[r.below(k)]);
+    out.lit(r.chance(1, 2) ? "[" : ""); out.field(f); out.lit(r.chance(1, 2) ? "]" : "");
+    if (idx < args.size() && sized_text_arg(args[idx])) {
+        const S &t = args[idx].text;
+        const size_t nul = t.find('\0');
+        if (t.size() > C && nul != S::npos && nul < C) vrt::count("nul_precision.U+0000_inside_the_kept_part_of_a_sized_string");
+        if (t.size() > C && C >= 1 && t[C - 1] == '\0') vrt::count("nul_precision.U+0000_is_the_last_kept_byte");
+        if (t.size() > C && t[C] == '\0') vrt::count("nul_precision.U+0000_is_the_first_cut_byte");
+        if (t.size() > C && t.find('\0', C) != S::npos) vrt::count("nul_precision.U+0000_inside_the_cut_part");
+        if (strstr(args[idx].type, "16") || strstr(args[idx].type, "32") || strstr(args[idx].type, "wstring")) vrt::count("nul_precision.converted_wide_string");
+    }
+    vrt::count("nul_precision.cases");
 }
 
 } // namespace fmtref
